@@ -18,7 +18,7 @@ LEVEL_NOTE = ("trusts the SimFS text layer to behave like open(): volatile until
               "input shapes are those of the seeded generator")
 RUNS = {"quick": 12000, "thorough": 400000}
 RULE = ("seeded histories of 1-7 operations (write via path/stream, overwrite, unacknowledged "
-        "ENOSPC write + retry, restart, read via path/stream with MAC checking on/off) over a "
+        "ENOSPC write or writer crash + retry, restart, read via path/stream with MAC checking on/off) over a "
         "simulated medium with 1-3 file names; a run is non-trivial when at least one acknowledged "
         "write was read back; distinct = distinct event-log digests")
 REAL = ["bec2format.bf3file (writer, reader, text envelope)", "bec2format.bytes_reader",
@@ -50,6 +50,9 @@ def gen(st, tier):
             fault = None
             if w.random() < 0.07:
                 fault = ["enospc", w.randint(0, 6), w.randint(0, 30)]
+            elif w.random() < 0.05:
+                # the writer process dies in write call k with only `keep` bytes on the medium
+                fault = ["crash", w.randint(0, 6), w.randint(0, 200)]
             ops.append(["write", name, w.randrange(nobj), w.randrange(len(keys)),
                         w.choice(["path", "path", "stream", "stream-crlf"]), fault])
             if fault and w.random() < 0.8:
@@ -99,7 +102,13 @@ def run(case):
                         finally:
                             h.close()
                 except SimCrash:
-                    raise
+                    # the writer died: nothing acknowledged, the process restarts
+                    acked[name] = None
+                    fs.restart()
+                    out.fired["crash"] += 1
+                    hist.setdefault(name, {})["failed"] = True
+                    out.ev("write", name, via, "crashed", len(fs.files.get(name, b"")))
+                    continue
                 except Exception as e:
                     acked[name] = None
                     fired = len(fs.fired) > nfired
